@@ -26,6 +26,14 @@ def scenarios(tier, seed):
                                                        {"iter": 5, "do": "ready", "cell": 0}, {"iter": 8, "do": "small", "cell": 5}], T_ns=2000))
     out.append(tc.scenario("mix2", row(3, far, level=2), [{"iter": 0, "do": "ready", "cell": 0}, {"iter": 0, "do": "ready", "cell": 2},
                                                          {"iter": 6, "do": "small", "cell": 1}, {"iter": 10, "do": "ready", "cell": 4}], T_ns=2200, threads=8))
+    # divisions and removals in the SAME iteration, in every arrangement of (removed, dividing, ordinary) and with equal numbers of
+    # both (the population then ends the iteration with the size it started with, having changed all the same)
+    import itertools
+    for k, perm in enumerate(itertools.permutations(("small", "ready", None))):
+        script = [{"iter": 5, "do": do, "cell": i} for i, do in enumerate(perm) if do]
+        out.append(tc.scenario("same%d" % k, row(3, far, level=2), script, T_ns=1400, threads=(1 if k % 2 else 4)))
+    out.append(tc.scenario("same22", row(5, far, level=2), [{"iter": 5, "do": "small", "cell": 0}, {"iter": 5, "do": "ready", "cell": 1}, {"iter": 5, "do": "small", "cell": 3},
+                                                           {"iter": 5, "do": "ready", "cell": 4}], T_ns=1400, threads=8))
     # epithelial cells with fewer than three face types, an ECM cell and a lumen next to them
     out.append(tc.scenario("ft2", [tc.cell(0, 0, level=1, nft=3), tc.cell(1, d, level=1, nft=3), tc.cell(2, 2 * d, level=1, ctype=1, nft=1),
                                    tc.cell(3, 0, level=1, ctype=2, nft=1, y=d)], [{"iter": 4, "do": "small", "cell": 0}], T_ns=1200))
